@@ -241,6 +241,14 @@ def run():
     for cfg in scfgs:
         for name in sampler_ops(cfg).keys():
             otasks.append(("tvf.checks.c09:op_case", dict(kind="sampler", name=name, cfg=cfg, gen_seed=0), None))
+    # the same operations on a sampler that was constructed WITH a random_state: only construction (and loading a
+    # checkpoint) may seed the stream with it; no later operation may put the stream back to a state fixed by it
+    for cfg in scfgs[:2]:
+        cfg_rs = dict(cfg, random_state=77)
+        for name in sampler_ops(cfg_rs).keys():
+            if name.startswith("Sampler() construction"):
+                continue
+            otasks.append(("tvf.checks.c09:op_case", dict(kind="sampler", name=name, cfg=cfg_rs, gen_seed=0), None))
     for i, st, val in farm.run(otasks, timeout=600, progress="C09-ops"):
         kw = otasks[i][1]
         if st == "timeout":
